@@ -162,11 +162,6 @@ void dump_row_slice(tmatrix<N, M, int>& m) {
     for (us k = 0; k != K; ++k)
       std::cout << "row " << M << " " << I << " " << J << " ; " << k << " = "
                 << off(&v[k], m.data()) << "\n";
-    const auto& cm = m;
-    auto cv = cm.template row_view<I, J, K>();
-    for (us k = 0; k != K; ++k)
-      std::cout << "row " << M << " " << I << " " << J << " ; " << k << " = "
-                << off(&cv[k], cm.data()) << "\n";
   }
 }
 template <us N, us M, us I, us J, us K>
@@ -176,11 +171,6 @@ void dump_col_slice(tmatrix<N, M, int>& m) {
     for (us k = 0; k != K; ++k)
       std::cout << "col " << M << " " << I << " " << J << " ; " << k << " = "
                 << off(&v[k], m.data()) << "\n";
-    const auto& cm = m;
-    auto cv = cm.template column_view<I, J, K>();
-    for (us k = 0; k != K; ++k)
-      std::cout << "col " << M << " " << I << " " << J << " ; " << k << " = "
-                << off(&cv[k], cm.data()) << "\n";
   }
 }
 template <us N, us M, us I, us J, us R, us C>
@@ -224,6 +214,11 @@ void full_row(tmatrix<N, M, int>& m) {
   for (us k = 0; k != M; ++k)
     std::cout << "row " << M << " " << I << " 0 ; " << k << " = "
               << off(&v[k], m.data()) << "\n";
+  const auto& cm = m;
+  auto cv = cm.template row_view<I>();
+  for (us k = 0; k != M; ++k)
+    std::cout << "row " << M << " " << I << " 0 ; " << k << " = "
+              << off(&cv[k], cm.data()) << "\n";
   if constexpr (N * M <= 9) row_all_j<N, M, I>(m, std::make_integer_sequence<us, M>());
 }
 template <us N, us M, us I>
@@ -232,6 +227,11 @@ void full_col(tmatrix<N, M, int>& m) {
   for (us k = 0; k != N; ++k)
     std::cout << "col " << M << " " << I << " 0 ; " << k << " = "
               << off(&v[k], m.data()) << "\n";
+  const auto& cm = m;
+  auto cv = cm.template column_view<I>();
+  for (us k = 0; k != N; ++k)
+    std::cout << "col " << M << " " << I << " 0 ; " << k << " = "
+              << off(&cv[k], cm.data()) << "\n";
   if constexpr (N * M <= 9) col_all_j<N, M, I>(m, std::make_integer_sequence<us, N>());
 }
 template <us N, us M, us... I>
@@ -405,6 +405,8 @@ int main() {
   dump_tmatrix_views<3, 2>();
   dump_tmatrix_views<3, 3>();
   dump_tmatrix_views<4, 4>();
+#endif
+#if C17_PART == 0 || C17_PART == 3
   // strided views on raw memory
   dump_strided_views<1>(std::make_integer_sequence<us, 4>());
   dump_strided_views<3>(std::make_integer_sequence<us, 4>());
